@@ -7,6 +7,7 @@ import MetapypeModel.Model.Query
 import MetapypeModel.Model.NsHeap
 import MetapypeModel.Model.Copy
 import MetapypeModel.Model.Registry
+import MetapypeModel.Model.Prune
 import MetapypeModel.Gen.Rules
 import MetapypeModel.Gen.Facts
 /-
@@ -140,6 +141,14 @@ def getRegOp (j : Json) : Option RegOp :=
   | .arr #[.str "delone", .str i] => some (.delOne i)
   | _ => none
 
+partial def treeJson : Tree → Json
+  | .mk i n c t p a e ns cs =>
+      let os (x : Option String) : Json := match x with | some s => .str s | none => .null
+      .arr #[.str i, .str n, os c, os t, os p, dictJson a, dictJson e, dictJson ns, .arr (cs.map treeJson).toArray]
+
+def reasonStr : Reason → String
+  | .unknown => "unknown" | .notAllowed => "notAllowed" | .invalid => "invalid"
+
 def handle (j : Json) : Json :=
   let T := Gen.tables
   let L := Lex.lexer
@@ -220,6 +229,13 @@ def handle (j : Json) : Json :=
       match ops.foldlM (fun r op => regStep r op) ([] : Registry) with
       | none => .str "exception"
       | some R => .arr (R.map (fun kv => Json.arr #[.str kv.1, (kv.2 : Json)])).toArray
+  | some "prune" =>
+      let t := getTree (fld j "tree")
+      let strict := match fld j "strict" with | .bool b => b | _ => false
+      let r := pruneT L T strict t
+      Json.mkObj [("tree", match r.1 with | some t' => treeJson t' | none => Json.null),
+                  ("pruned", .arr ((prunedList L T strict t).map (fun x => Json.arr #[.str x.1, .str (reasonStr x.2)])).toArray),
+                  ("unspec", .bool (unspecTree T t))]
   | some "isequal" =>
       Json.bool (isEqual (getTree (fld j "a")) (getTree (fld j "b")))
   | some "tables" =>
